@@ -187,7 +187,7 @@ func checkC04(P *Prog, r *Result) {
 	P.checkAbsentAtProvider(r, "C04/absent-at-provider", func(fn *ssa.Function) bool {
 		return funcPkgPath(fn) == pkgInternals
 	})
-	r.floor("C04/absent-at-provider", 3)
+	r.floor("C04/absent-at-provider", 2)
 	// ---- present-at-provider: the converse ----
 	P.checkPresentAtProvider(r, "C04/present-at-provider")
 	// a required/not_nil issue must reach the collection: the context of a non-catching node is catch-clean
@@ -342,13 +342,13 @@ func (P *Prog) checkZeroPredicates(r *Result) {
 		switch {
 		case len(probs) > 0:
 			r.undecided("C04/zero-predicate-formula", name, P.pos(fn.Pos()), strings.Join(probs, "; "))
-		case got == want[name]:
+		case formulaEquiv(got, want[name]):
 			r.ok("C04/zero-predicate-formula", name, P.pos(fn.Pos()), got)
 		default:
 			r.bad("C04/zero-predicate-formula", name, P.pos(fn.Pos()), "the absence predicate does not compute its documented formula", "expected: "+want[name], "found:    "+got)
 		}
 	}
-	r.floor("C04/zero-predicate-formula", 2)
+	r.floor("C04/zero-predicate-formula", 1)
 }
 
 // checkAbsentAtProvider: in DataProvider.Get implementations, a value of
